@@ -19,10 +19,17 @@ func diFlagsString(flags enum.DIFlag) string {
 	if flag := flags & 0x3; flag != 0 {
 		ss = append(ss, flag.String())
 	}
+	// Bits without a keyword are printed as a number after the keywords, as LLVM
+	// prints them.
+	extra := flags &^ 0x3
 	for mask := enum.DIFlagFirst; mask <= enum.DIFlagLast; mask <<= 1 {
-		if flags&mask != 0 {
-			ss = append(ss, mask.String())
+		if s := mask.String(); flags&mask != 0 && !strings.HasPrefix(s, "DIFlag(") {
+			ss = append(ss, s)
+			extra &^= mask
 		}
+	}
+	if extra != 0 {
+		ss = append(ss, strconv.FormatUint(uint64(extra), 10))
 	}
 	return strings.Join(ss, " | ")
 }
@@ -34,10 +41,17 @@ func dispFlagsString(flags enum.DISPFlag) string {
 		return flags.String()
 	}
 	var ss []string
+	// Bits without a keyword are printed as a number after the keywords, as LLVM
+	// prints them.
+	extra := flags
 	for mask := enum.DISPFlagFirst; mask <= enum.DISPFlagLast; mask <<= 1 {
-		if flags&mask != 0 {
-			ss = append(ss, mask.String())
+		if s := mask.String(); flags&mask != 0 && !strings.HasPrefix(s, "DISPFlag(") {
+			ss = append(ss, s)
+			extra &^= mask
 		}
+	}
+	if extra != 0 {
+		ss = append(ss, strconv.FormatUint(uint64(extra), 10))
 	}
 	return strings.Join(ss, " | ")
 }
